@@ -230,13 +230,18 @@ func (n *networkTopology) replicaMap(tokenRing *tokenRing) tokenRingReplicas {
 		}
 
 		replicas := make([]*HostInfo, 0, totalRF)
+		// with vnodes a host owns several tokens; it is considered once per walk
+		seenHosts := make(map[*HostInfo]struct{}, len(tokenRing.hosts))
 		for j := 0; j < len(tokens) && (len(replicas) < totalRF && !n.haveRF(replicasInDC)); j++ {
-			// TODO: ensure we dont add the same host twice
 			p := i + j
 			if p >= len(tokens) {
 				p -= len(tokens)
 			}
 			h := tokens[p].host
+			if _, ok := seenHosts[h]; ok {
+				continue
+			}
+			seenHosts[h] = struct{}{}
 
 			dc := h.DataCenter()
 			rack := h.Rack()
